@@ -4,7 +4,7 @@
 From Coq Require Import ZArith List String Ascii Bool Lia.
 From Model Require Import PyBase Mdl Stereo.
 From Gen Require Import MdlTables.
-From Proofs Require Import MdlProofs MdlV2000 MdlV3000 MdlFraming MdlMeta StereoProofs.
+From Proofs Require Import MdlProofs MdlV2000 MdlV3000 MdlTail MdlFraming MdlFramingExt MdlMeta MdlFile MdlFileMol MdlFileMol3 StereoProofs.
 Import ListNotations.
 Open Scope Z_scope.
 Local Notation length := List.length.
@@ -167,6 +167,27 @@ Theorem C11_rdf_framing : forall (A : Type) (build_mol : parsed3 -> pyres A) (bu
 Proof. exact rdf_framing. Qed.
 Print Assumptions C11_rdf_framing.
 
+(* the same WITHOUT the non-empty-record hypothesis: an empty record (a format line directly followed by the next one, or by the end
+   of the file) is skipped by the reader; the file yields the results of its non-empty records.  Size condition: record + header +
+   number of records below the buffer size (the line counter of one read also counts header lines and skipped format lines) *)
+Theorem C11_rdf_framing_full : forall (A : Type) (build_mol : parsed3 -> pyres A) (build_rxn : rparsed -> pyres A) (buffer_size : nat) header recs,
+  Forall (fun l => is_fmt l = false /\ startswith (L "$RXN") l = false) header ->
+  Forall (rdf_rec_ok buffer_size (S (length header) + length recs)) recs ->
+  (S (length header) + length recs < buffer_size)%nat ->
+  rdf_read A build_mol build_rxn buffer_size (rdf_file header recs) =
+  collect A (map (rdf_one A build_mol build_rxn) (nonempty_bodies recs)).
+Proof. exact rdf_framing_full. Qed.
+Print Assumptions C11_rdf_framing_full.
+Theorem C11_rdf_framing_full_example :
+  Forall (fun l => is_fmt l = false /\ startswith (L "$RXN") l = false) ex_rdf_header /\
+  Forall (rdf_rec_ok 100 (S (length ex_rdf_header) + length ex_rdf_recs_empty)) ex_rdf_recs_empty /\
+  (S (length ex_rdf_header) + length ex_rdf_recs_empty < 100)%nat /\
+  length (nonempty_bodies ex_rdf_recs_empty) = 3%nat /\ length ex_rdf_recs_empty = 5%nat /\
+  rdf_read (option str) ex_build ex_build_rxn 100 (rdf_file ex_rdf_header ex_rdf_recs_empty) =
+    ([(Some (L "a"), [(L "k", L "v")]); (Some (L "c"), [(L "k", L "w" ++ [nl] ++ L "MAD value")])], Exhausted).
+Proof. exact rdf_framing_full_example. Qed.
+Print Assumptions C11_rdf_framing_full_example.
+
 (* one record on its own lines: the MOL block (up to the first "M  END" line) goes to the parser, the rest to read_metadata;
    RDF: the structure goes to the parser, the lines from the first "$DTYPE" line on to read_metadata *)
 Theorem C11_sdf_record_split : forall (A : Type) (build_mol : parsed3 -> pyres A) b ml e metal,
@@ -205,6 +226,92 @@ Theorem C11_rdf_framing_example :
     ([(Some (L "a"), [(L "k", L "v")]); (Some (L "c"), [(L "k", L "w" ++ [nl] ++ L "MAD value")])], Exhausted).
 Proof. exact rdf_framing_example. Qed.
 Print Assumptions C11_rdf_framing_example.
+
+(* ---- whole files.  The block theorems also hold with ANY further lines after the written block (the parsers stop at "M  END" /
+        "END CTAB"): this is what the RDF reader and the RXN parsers rely on ---- *)
+Theorem C11_v2000_fields_roundtrip_tail : forall mapping g fs,
+  Forall2 wf_atom (wm_atoms g) fs -> wm_atoms g <> [] -> (length (wm_atoms g) <= 999)%nat -> (length (wm_bonds g) <= 999)%nat ->
+  NoDup (map wa_num (wm_atoms g)) -> Forall (bond_ok (wm_atoms g)) (wm_bonds g) ->
+  Forall (wedge_ok (wm_atoms g) (wm_bonds g)) (wm_wedge g) ->
+  (length (wm_wedge g) + length (plain_bonds g) = length (wm_bonds g))%nat ->
+  exists lines, write_mol_v2000 mapping g = Ok lines /\
+    forall tail, parse_mol_v2000 (map add_nl lines ++ tail) =
+    Ok (mk_parsed (title_of (wm_name g)) (map2 (expected_atom mapping) (wm_atoms g) fs)
+                  (map (exp_wedge_bond (wm_atoms g) (wm_bonds g)) (wm_wedge g) ++ map (exp_plain_bond (wm_atoms g)) (plain_bonds g))
+                  (map (exp_wedge_stereo (wm_atoms g)) (wm_wedge g)) []).
+Proof. exact v2000_fields_roundtrip_tail. Qed.
+Print Assumptions C11_v2000_fields_roundtrip_tail.
+
+(* a text that float() accepts starts with a blank, a sign, a digit, a dot or a letter of inf / nan: never with '$' or 'M', so a
+   written atom line is never taken for "$$$$", "$MOL", "$RFMT", "$DTYPE", "M  END", "M  V30 ..." *)
+Theorem C11_float_field_first_char : forall c r f, py_float (c :: r) = Ok f -> is_cspace c = true \/ In c float_first.
+Proof. exact py_float_first_char. Qed.
+Print Assumptions C11_float_field_first_char.
+
+(* SD files, generic in the MOL block: a record = (MOL lines without "M  END" inside, the "M  END" line, dictionary entries) *)
+Theorem C11_sdf_file_roundtrip_generic : forall (A : Type) (build_mol : parsed3 -> pyres A) (buffer_size : nat) esc (recs : list frec),
+  Forall (frec_ok buffer_size esc) recs ->
+  sdf_read A build_mol buffer_size (readlines (file_text esc recs)) = collect A (map (frec_result A build_mol esc) recs ++ [inr EOFError]).
+Proof. exact sdf_file_roundtrip_generic. Qed.
+Print Assumptions C11_sdf_file_roundtrip_generic.
+Theorem C11_rdf_file_roundtrip_generic : forall (A : Type) (build_mol : parsed3 -> pyres A) (build_rxn : rparsed -> pyres A) (buffer_size : nat) header (recs : list rrec),
+  Forall (fun l => ~ In nl l /\ is_fmt l = false /\ startswith (L "$RXN") l = false) header ->
+  Forall (rrec_ok buffer_size (length header)) recs ->
+  rdf_read A build_mol build_rxn buffer_size (readlines (rdfile_text header recs)) = collect A (map (rrec_result A build_mol build_rxn) recs).
+Proof. exact rdf_file_roundtrip_generic. Qed.
+Print Assumptions C11_rdf_file_roundtrip_generic.
+
+(* sdf_file_roundtrip: for records within the format limits (sdf_rec_wf: the V2000 block hypotheses; title and coordinate fields
+   single lines; the title does not start with $$$$ / M  END / $RFMT / $MFMT / $DTYPE / $RXN; dictionary entries obey the
+   format-inherent conditions of the metadata theorem and no value line starts with $$$$; the record fits the read-ahead buffer),
+   reading the concatenation of what SDFWrite wrote returns, record by record, what the builder makes of the expected parse result,
+   with the dictionary normalised line by line, and then the file ends *)
+Theorem C11_sdf_file_roundtrip : forall (A : Type) (build : parsed3 -> pyres A) buffer_size mapping (recs : list sdf_in),
+  Forall (sdf_rec_wf buffer_size mapping) recs ->
+  exists texts, mapM (fun r => sdf_record_text mapping (si_mol r) (meta_of (si_entries r))) recs = Ok texts /\
+    sdf_read A build buffer_size (readlines (concat texts)) =
+    collect A (map (fun r => built build (mol_expected2 mapping (si_mol r) (si_fs r)) (sdf_meta_spec sdf_write_escape (si_entries r))) recs
+               ++ [inr EOFError]).
+Proof. exact sdf_v2000_file_roundtrip. Qed.
+Print Assumptions C11_sdf_file_roundtrip.
+
+(* rdf_file_roundtrip (molecule records): the header RDFWrite writes first, then the concatenation of what it wrote per record *)
+Theorem C11_rdf_mol_file_roundtrip : forall (A : Type) (build : parsed3 -> pyres A) build_rxn buffer_size mapping header (recs : list sdf_in),
+  Forall (fun l => ~ In nl l /\ is_fmt l = false /\ startswith (L "$RXN") l = false) header ->
+  Forall (rdf_mol_wf buffer_size (length header) mapping) recs ->
+  exists texts, mapM (fun r => rdf_mol_text mapping (si_mol r) (meta_of (si_entries r))) recs = Ok texts /\
+    rdf_read A build build_rxn buffer_size (readlines (text_of_lines header ++ concat texts)) =
+    collect A (map (fun r => built build (mol_expected2 mapping (si_mol r) (si_fs r)) (meta_spec (si_entries r))) recs).
+Proof. exact rdf_v2000_mol_file_roundtrip. Qed.
+Print Assumptions C11_rdf_mol_file_roundtrip.
+
+(* the same for the V3000 writers: ESDFWrite then SDFRead, ERDFWrite (molecule records) then RDFRead *)
+Theorem C11_esdf_file_roundtrip : forall (A : Type) (build : parsed3 -> pyres A) buffer_size mapping (recs : list sdf_in),
+  Forall (esdf_rec_wf buffer_size mapping) recs ->
+  exists texts, mapM (fun r => esdf_record_text mapping (si_mol r) (meta_of (si_entries r))) recs = Ok texts /\
+    sdf_read A build buffer_size (readlines (concat texts)) =
+    collect A (map (fun r => built build (mol_expected2 mapping (si_mol r) (si_fs r)) (sdf_meta_spec esdf_write_escape (si_entries r))) recs
+               ++ [inr EOFError]).
+Proof. exact esdf_v3000_file_roundtrip. Qed.
+Print Assumptions C11_esdf_file_roundtrip.
+Theorem C11_erdf_mol_file_roundtrip : forall (A : Type) (build : parsed3 -> pyres A) build_rxn buffer_size mapping header (recs : list sdf_in),
+  Forall (fun l => ~ In nl l /\ is_fmt l = false /\ startswith (L "$RXN") l = false) header ->
+  Forall (erdf_mol_wf buffer_size (length header) mapping) recs ->
+  exists texts, mapM (fun r => erdf_mol_text mapping (si_mol r) (meta_of (si_entries r))) recs = Ok texts /\
+    rdf_read A build build_rxn buffer_size (readlines (text_of_lines header ++ concat texts)) =
+    collect A (map (fun r => built build (mol_expected2 mapping (si_mol r) (si_fs r)) (meta_spec (si_entries r))) recs).
+Proof. exact erdf_v3000_mol_file_roundtrip. Qed.
+Print Assumptions C11_erdf_mol_file_roundtrip.
+
+(* non-vacuity: the hypotheses hold for a two-record file (charge +4, isotope, radical, wedge, order-8 bond, renumbered atoms;
+   an escaped key, a two-line value), and the file reads back *)
+Theorem C11_file_roundtrip_example :
+  (Forall (sdf_rec_wf 100 true) ex_file_recs /\ Forall (rdf_mol_wf 100 2 true) (firstn 1 ex_file_recs)) /\
+  exists texts, mapM (fun r => sdf_record_text true (si_mol r) (meta_of (si_entries r))) ex_file_recs = Ok texts /\
+    sdf_read (option str) ex_build 100 (readlines (concat texts)) =
+    ([(Some (L "test mol"), [(L "k", L "v")]); (Some (L "test mol"), [(L "a>b", L "two" ++ [nl] ++ L "lines"); (L "n", L "1")])], Exhausted).
+Proof. exact (conj ex_file_recs_wf sdf_file_example). Qed.
+Print Assumptions C11_file_roundtrip_example.
 
 (* ---- metadata: values come back line by line, stripped, blank lines dropped; equal keys merge ---- *)
 Theorem C11_rdf_meta_roundtrip_normalised : forall entries, Forall rdf_entry_ok entries ->
